@@ -12,6 +12,8 @@ def cc_definition(c):
     if not ok:
         return None
     n = len(nodes)
+    if n > 200:
+        return cg.closeness_fast(nodes, w, c["weighted"], c["wf"])
     d, _ = cg.all_pairs(nodes, w, c["weighted"])
     out = {}
     for ui, u in enumerate(nodes):
@@ -92,6 +94,11 @@ class C06(props.BaseProp):
             elif weighted and not big:
                 cg.weight_variant(r2, c)
             cases.append(c)
+            if i % 1500 == 750:
+                # above 1024 nodes (oracle only): a size-dependent slip in the parallel arm
+                h = cg.huge_case(r2, "ch%d" % i)
+                h.update(weighted=r2.below(2) == 1, wf=r2.below(2) == 1)
+                cases.append(h)
         return cases
 
     def to_harness(self, c):
@@ -145,7 +152,7 @@ class C06(props.BaseProp):
     def stats_key(self, c, o):
         ok, nodes, w = cg.effective(c)
         n = len(nodes)
-        ks = ["dir%d_multi%d" % (c["spec"][0], c["spec"][1]), "n_%s" % (n if n <= 8 else "21-23"),
+        ks = ["dir%d_multi%d" % (c["spec"][0], c["spec"][1]), "n_%s" % (n if n <= 8 else ("21-23" if n < 100 else ">1024")),
               "weighted%d_wf%d" % (c["weighted"], c["wf"]),
               "outcome_%s" % "_".join(str(ob[1][0][0]) for ob in o if ob[0] == 1)]
         if ok and c["spec"][0] and n <= 8:
